@@ -17,7 +17,7 @@ from .c_loader import add, sub, mul, fdiv, mod, eq, le, lt, ge, gt
 ITEM = z3.Function('ITEM', z3.IntSort(), F32)
 
 
-def mk_accessor(c, prog, cls_name, by_number, descending=False):
+def mk_accessor(c, prog, cls_name, by_number, descending=False, lenient=False):
     n = c.sym_int('n', lo=2, name='axis_length')
     if by_number:
         k0 = c.sym_int('k0', lo=1, name='first_line_number')
@@ -39,8 +39,14 @@ def mk_accessor(c, prog, cls_name, by_number, descending=False):
 
     def vf(v, *a, **k):
         ok = member(v)
+        if lenient:
+            # read methods that index a numpy / Python sequence with the ordinal (get_trace on irregular files, gen_trace_header on 2-D files)
+            # accept -n <= v < n themselves (GetTraceIrregular / GenTraceHeader2d contracts): the accessor must not rely on them to refuse
+            ok = And(ge(v, sub(0, n)), lt(v, n))
         if not cur().decide(zbool(ok), raise_split=True):
             raise PyRaise('IndexError')
+        if lenient:
+            v = Ite(lt(v, 0), add(v, n), v)
         return STok(ITEM(zint(v)))
     o = SObj(prog.klass(cls_name), dict(len_object=n, keys_object=keys if keys is not None else S_range(n), values_function=vf))
     o.axis = (k0, inc, n, last, member)
@@ -119,9 +125,10 @@ for _pat in [(a, b, s) for a in (False, True) for b in (False, True) for s in (F
 class OrdinalIndex(Contract):
     """trace[i], header[i], depth_slice[i]: Python sequence semantics incl. negative wrap; IndexError iff i not in [-n, n)"""
     variant = 'int'
+    lenient = False
 
     def inputs(self, c):
-        o = mk_accessor(c, c.ex.prog, 'TraceAccessor', by_number=False)
+        o = mk_accessor(c, c.ex.prog, 'TraceAccessor', by_number=False, lenient=self.lenient)
         return dict(self=o, subscript=c.sym_int('i', name='subscript'))
 
     def raises(self, c, a):
@@ -285,3 +292,6 @@ ReaderInitView.only_in = tuple(f'{k}.__init__' for k in _ACC)
 fuc('read.py::SgzReader.__init__', props=[], modular=True)(ReaderInitView)
 for _k, _v in _ACC.items():
     fuc(f'accessors.py::{_k}.__init__', props=['C13', 'C02'])(type('AccessorInit_' + _k, (AccessorInit,), dict(cls=_k, spec=_v, variant=_k)))
+
+
+fuc('accessors.py::Accessor.__getitem__', props=['C13', 'C14'])(type('OrdinalIndexLenient', (OrdinalIndex,), dict(lenient=True, variant='int, values function with sequence semantics (irregular traces / 2-D headers)')))
